@@ -1,8 +1,8 @@
 use crate::config::LuaFormatConfig;
 use crate::ir::{self, DocIR};
 use emmylua_parser::{
-    BinaryOperator, LuaAstNode, LuaChunk, LuaKind, LuaOpKind, LuaSyntaxId, LuaSyntaxKind,
-    LuaSyntaxToken, LuaTokenKind,
+    BinaryOperator, LuaAstNode, LuaChunk, LuaDocTag, LuaKind, LuaOpKind, LuaSyntaxId,
+    LuaSyntaxKind, LuaSyntaxToken, LuaTokenKind,
 };
 use smol_str::SmolStr;
 
@@ -283,6 +283,14 @@ fn apply_left_paren_spacing(
         } else {
             0
         })
+    } else if token
+        .parent()
+        .is_some_and(|parent| LuaDocTag::can_cast(parent.kind().into()))
+        && prev_token.kind().to_token() == LuaTokenKind::TkName
+    {
+        // the `(` of a parenthesized doc type directly inside a tag (`---@param f (A | B)`): it
+        // follows the parameter or field name and is not a call
+        Some(1)
     } else {
         match prev_token.kind().to_token() {
             LuaTokenKind::TkName | LuaTokenKind::TkRightParen | LuaTokenKind::TkRightBracket => {
